@@ -6,33 +6,58 @@ from .ber import NoChoice, Chooser
 
 
 class BitW:
+    """bit writer; whole bytes are flushed to a bytearray so that long strings stay linear-time"""
     def __init__(self):
-        self.v = 0
-        self.n = 0
+        self.buf = bytearray()
+        self.v = 0      # pending bits (< 8 after a flush)
+        self.k = 0      # number of pending bits
+        self.n = 0      # total bits written
+
+    def _flush(self):
+        k = self.k
+        if k >= 8:
+            nb = k // 8
+            rem = k - nb * 8
+            self.buf += (self.v >> rem).to_bytes(nb, 'big')
+            self.v &= (1 << rem) - 1
+            self.k = rem
 
     def put(self, value, nbits):
         if nbits == 0:
             return
         assert 0 <= value < (1 << nbits), (value, nbits)
         self.v = (self.v << nbits) | value
+        self.k += nbits
         self.n += nbits
+        if self.k >= 512:
+            self._flush()
 
     def put_bytes(self, b):
-        for x in b:
-            self.put(x, 8)
+        if not b:
+            return
+        if self.k % 8 == 0:
+            self._flush()
+            self.buf += bytes(b)
+            self.n += 8 * len(b)
+            return
+        self.put(int.from_bytes(b, 'big'), 8 * len(b))
+        self._flush()
 
     def put_w(self, w):
-        self.v = (self.v << w.n) | w.v
-        self.n += w.n
+        w._flush()
+        if w.buf:
+            self.put_bytes(w.buf)
+        if w.k:
+            self.put(w.v, w.k)
 
     def tobytes(self, min1=True):
-        n = self.n
-        pad = (8 - n % 8) % 8
-        v = self.v << pad
-        nb = (n + pad) // 8
-        if nb == 0 and min1:
+        self._flush()
+        out = bytes(self.buf)
+        if self.k:
+            out += bytes([(self.v << (8 - self.k)) & 0xff])
+        if not out and min1:
             return b'\0'
-        return v.to_bytes(nb, 'big')
+        return out
 
 
 def bits_for_range(r):
@@ -193,11 +218,6 @@ def encode_into(w, mod, t, v, ch):
                 n = sc.lb
         total = int.from_bytes(b, 'big') if b else 0
         nb = len(b) * 8
-
-        def emit(s, c, total=total, nb=nb):
-            for i in range(s, s + c):
-                bit = (total >> (nb - 1 - i)) & 1 if i < nb else 0
-                w.put(bit, 1)
 
         def emit_fast(s, c, total=total, nb=nb):
             if c == 0:
